@@ -715,14 +715,19 @@ Fixpoint run_pops (fuel : nat) (n : nat) (p : port) (l : list Z) : list Z :=
     | 5 :: r => go PClose r
     | 6 :: m :: r => go (PWith m) r
     | 7 :: r => go PDel r
+    | 8 :: r => go PReset r
     | _ => bad_input
     end
   end.
 Definition run_port (inp : list Z) : list Z :=
   match inp with
-  | ar :: echo :: fuel :: ns :: r =>
-      let '(script, ops) := in_actions (Z.to_nat ns) r in
-      run_pops (Z.to_nat fuel) (S (length ops)) (new_port (negb (ar =? 0)) (negb (echo =? 0)) script) ops
+  | ar :: echo :: fuel :: r0 =>
+      match in_list r0 with
+      | Some (faults, ns :: r) =>
+          let '(script, ops) := in_actions (Z.to_nat ns) r in
+          run_pops (Z.to_nat fuel) (S (length ops)) (new_port (negb (ar =? 0)) (negb (echo =? 0)) script (map (fun x => negb (x =? 0)) faults)) ops
+      | _ => bad_input
+      end
   | _ => bad_input
   end.
 Fixpoint in_subs (n : nat) (l : list Z) : list port * list Z :=
@@ -733,7 +738,7 @@ Fixpoint in_subs (n : nat) (l : list Z) : list port * list Z :=
                        | Some (q, r1) =>
                            let '(ps, r') := in_subs k r1 in
                            ({| p_closed := negb (c =? 0); p_queue := q; p_script := []; p_closes := 0; p_sent := []; p_autoreset := false;
-                               p_echo := true; p_sleeps := 0; p_calls := 0 |} :: ps, r')
+                               p_echo := true; p_sleeps := 0; p_calls := 0; p_faults := [] |} :: ps, r')
                        | None => ([], l)
                        end
            | [] => ([], l)
